@@ -80,11 +80,11 @@ def judge(site, M, M0, M0inv, vab, vcd, wn, tol, n_iter, max_iter, f_prior, tr, 
         viol.append(V(site, 'not_spd', 'learned matrix is not symmetric positive definite (lambda_min = %.3g)' % lam.min(), tr))
         return None
     f = lsml_ref.objective(M, M0inv, vab, vcd, wn)
-    if f > f_prior + 1e-9 * (1 + abs(f_prior)):
+    if not f <= f_prior + 1e-9 * (1 + abs(f_prior)):
         viol.append(V(site, 'objective_above_prior', 'objective %.10g is larger than at the prior (%.10g) [max_iter=%s]' % (f, f_prior, max_iter), tr))
     if n_iter < max_iter and tol is not None:
         g = np.linalg.norm(lsml_ref.gradient(M, M0inv, vab, vcd, wn))
-        if g > 1.001 * tol and lsml_ref.min_margin(M, vab, vcd) > 1e-9:
+        if not g <= 1.001 * tol and lsml_ref.min_margin(M, vab, vcd) > 1e-9:
             viol.append(V(site, 'not_stationary', 'solver stopped after %d < %d iterations with gradient norm %.4g of the documented objective '
                           '(tol = %g)' % (n_iter, max_iter, g, tol), tr, gradient_norm=g))
         return f, g
@@ -171,7 +171,7 @@ def run_case(spec):
                 f, g = r
                 if g is not None:
                     head = max(head, g / (1.001 * tol))
-                if prev_f is not None and f > prev_f + 1e-9 * (1 + abs(prev_f)):
+                if prev_f is not None and not f <= prev_f + 1e-9 * (1 + abs(prev_f)):
                     viol.append(V(site, 'objective_increases_with_budget', 'objective rises from %.10g to %.10g when max_iter goes to %d'
                                   % (prev_f, f, mi), tr))
                 prev_f = f
